@@ -713,6 +713,13 @@ class Machine:
         m = re.match(r"^(-?\d+)_(\w+)$", s)
         if m and m.group(2) in BITS:
             return I(int(m.group(1)), m.group(2))
+        m = re.match(r"^(\w+)::(MIN|MAX)$", s)
+        if m and m.group(1) in BITS:
+            t = m.group(1)
+            b = BITS[t]
+            if m.group(2) == 'MAX':
+                return I((1 << (b - 1)) - 1 if t[0] == 'i' else (1 << b) - 1, t)
+            return I(-(1 << (b - 1)) if t[0] == 'i' else 0, t)
         m = re.match(r"^'(\\?.|\\u\{[0-9a-f]+\})'$", s)
         if m:
             c = m.group(1)
